@@ -204,19 +204,19 @@ func (g ggen) resumable(b, n j.B, startIdx int, pc float64, maxLen int) []gcs.Op
 }
 
 type gcsProfile struct {
-	fileSafe  bool
-	n         int
-	pCond     float64
-	wUpload   float64
-	wResum    float64
-	wPatch    float64
-	wDelete   float64
-	wRead     float64
-	wCompose  float64
-	wCopy     float64
-	wList     float64
-	fewNames  int
-	maxResum  int
+	fileSafe bool
+	n        int
+	pCond    float64
+	wUpload  float64
+	wResum   float64
+	wPatch   float64
+	wDelete  float64
+	wRead    float64
+	wCompose float64
+	wCopy    float64
+	wList    float64
+	fewNames int
+	maxResum int
 }
 
 func genGcsProgram(r *rand.Rand, p gcsProfile) []gcs.Op {
